@@ -6,9 +6,10 @@ C15 — comparisons form a consistent order; every Sort returns an ordered permu
 
 Strings are `List Nat` (every code-unit width at once); values are `JVal`; `Memory::Sort` is
 `Qentem.Sort.sortSeg`.  Theorems without `_partial` are the full claim for their domain.
-The value laws are false on the current code for two operand classes (a pointer operand facing a
-shallower pointer nesting on the other side; a NaN real): the full statements are kept as
-`def … : Prop`, refuted on witnesses, and proved under the explicit hypothesis (`…_partial`).
+Since 73c896c (pointer operands dereferenced on both sides) duality and transitivity of the value
+operators hold for every value; trichotomy and the `<=`-chain form of "sorted" fail only for a NaN
+real: those full statements are kept as `def … : Prop`, refuted on the NaN witness, and proved
+under the single hypothesis `noNaN` (`…_partial`).
 -/
 namespace Qentem.Props.C15
 open Qentem.Order Qentem.Sort
@@ -82,98 +83,77 @@ theorem str_cursor_model (l r : Array Nat) (e : Bool) :
 
 /-! ## Values -/
 
-/-- Full claim for values: every pair is consistent and dual, every triple transitive. -/
-def ValueOrderLaws : Prop :=
-  ∀ a b c : JVal, (obsVal a b).consistent = true ∧ (obsVal a b).dual (obsVal b a) = true ∧
-    Obs.trans (obsVal a b) (obsVal b c) (obsVal a c) = true
-
-/-- False on the current code: `p = ptr→"s"`, `o = {}` give `p > o` and `o > p`
-    (only the left operand is dereferenced, Value.hpp:681-685, 728-732). -/
-theorem value_order_laws_false : ¬ ValueOrderLaws := by
-  intro h
-  have := (h (.ptr (.str [115])) (.obj 0) .null).2.1
-  revert this; decide
-
-/-- False as well for a NaN real: none of `<`, `==`, `>` holds. -/
-theorem value_nan_not_consistent : (obsVal (.real none) (.real none)).consistent = false := by decide
-
-/-- The exact shape of the defect: when the right operand has more pointer layers than the left,
-    `a < b` only asks whether `a` (dereferenced) is `Undefined` — the right operand's target is never
-    looked at. -/
-theorem val_lt_pointer_right (a b : JVal) (h : depth a < depth b) :
-    Val.lt a b = (strip a == JVal.undefined) := val_lt_shallow_left a b h
-
-/-- Conversely, with at least as many layers on the left, `<` compares the pointed-to values. -/
-theorem val_lt_pointer_left (a b : JVal) (h : depth b ≤ depth a) :
-    Val.lt a b = Val.lt (strip a) (strip b) := val_lt_strip a b h
+/-- Every operator compares the pointed-to values, whichever side the pointers are on. -/
+theorem val_compare_targets (a b : JVal) : obsVal a b = obsVal (strip a) (strip b) := by
+  rw [obsVal_base a b, obsVal_base (strip a) (strip b), strip_strip, strip_strip]
 
 /-- `<=` is `<` or `==`, `>=` is `>` or `==` — for every pair, pointers and NaN included. -/
-theorem val_le_iff (a b : JVal) : Val.le a b = (Val.lt a b || Val.eq a b) := val_le_eq a b
-theorem val_ge_iff (a b : JVal) : Val.ge a b = (Val.gt a b || Val.eq a b) := val_ge_eq a b
+theorem val_le_iff (a b : JVal) : Val.le a b = (Val.lt a b || Val.eq a b) := by
+  rw [val_le_base, val_lt_base, val_eq_base]; exact base_le_eq _ _
+theorem val_ge_iff (a b : JVal) : Val.ge a b = (Val.gt a b || Val.eq a b) := by
+  rw [val_ge_base, val_gt_base, val_eq_base]; exact base_ge_eq _ _
 
-/-- Exactly one of `<`, `==`, `>` and the unions, for every NaN-free pair (pointers included). -/
-theorem val_consistent_partial (a b : JVal) (ha : noNaN a = true) (hb : noNaN b = true) :
-    (obsVal a b).consistent = true := by
-  have t := val_tri a b ha hb
-  simp only [Obs.consistent, obsVal, val_le_eq, val_ge_eq, Bool.and_eq_true, beq_self_eq_true, and_true]
-  exact t
+theorem val_gt_eq_lt_swap (a b : JVal) : Val.gt a b = Val.lt b a := by
+  rw [val_gt_base, val_lt_base]; exact base_gt_eq_lt_swap _ _
 
-theorem val_gt_eq_lt_swap (a b : JVal) (h : depth a = depth b) : Val.gt a b = Val.lt b a := by
-  rw [val_gt_strip a b (by omega), val_lt_strip b a (by omega)]
-  exact val_gt_eq_lt_swap0 _ _ (depth_strip a) (depth_strip b)
+theorem val_eq_comm (a b : JVal) : Val.eq a b = Val.eq b a := by
+  rw [val_eq_base, val_eq_base]; exact base_eq_comm _ _
 
-theorem val_eq_comm (a b : JVal) (h : depth a = depth b) : Val.eq a b = Val.eq b a := by
-  rw [val_eq_strip a b (by omega), val_eq_strip b a (by omega)]
-  exact val_eq_comm0 _ _ (depth_strip a) (depth_strip b)
+/-- Duality, for every pair of values (no hypothesis). -/
+theorem val_dual (a b : JVal) : (obsVal a b).dual (obsVal b a) = true := by
+  simp [Obs.dual, obsVal, val_le_iff, val_ge_iff, val_gt_eq_lt_swap a b, val_gt_eq_lt_swap b a,
+    val_eq_comm a b]
 
-/-- Duality for operands with the same pointer nesting (in particular: no pointer operands). -/
-theorem val_dual_partial (a b : JVal) (h : depth a = depth b) :
-    (obsVal a b).dual (obsVal b a) = true := by
-  simp [Obs.dual, obsVal, val_le_eq, val_ge_eq, val_gt_eq_lt_swap a b h, val_gt_eq_lt_swap b a h.symm,
-    val_eq_comm a b h]
-
-theorem val_lt_trans_partial (a b c : JVal) (h1 : depth a = depth b) (h2 : depth b = depth c) :
+theorem val_lt_trans (a b c : JVal) :
     Val.lt a b = true → Val.lt b c = true → Val.lt a c = true := by
-  rw [val_lt_strip a b (by omega), val_lt_strip b c (by omega), val_lt_strip a c (by omega)]
-  exact val_lt_trans0 _ _ _ (depth_strip a) (depth_strip b) (depth_strip c)
-
-/-- All transitivity instances the oracle checks, for one pointer nesting. -/
-theorem val_trans_partial (a b c : JVal) (h1 : depth a = depth b) (h2 : depth b = depth c) :
-    Obs.trans (obsVal a b) (obsVal b c) (obsVal a c) = true := by
-  rw [obsVal_strip a b h1, obsVal_strip b c h2, obsVal_strip a c (by omega)]
-  exact val_trans0 _ _ _ (depth_strip a) (depth_strip b) (depth_strip c)
-
-/-- `==` between values of one pointer nesting means the pointed-to values agree in everything the
-    comparisons read (kind, container size, string, number). -/
-theorem val_eq_iff_partial (a b : JVal) (h : depth a = depth b) (hn : noNaN a = true) :
-    Val.eq a b = true ↔ strip a = strip b := by
-  rw [val_eq_strip a b (by omega)]
-  constructor
-  · exact val_eq_true_imp_eq0 _ _ (depth_strip a) (depth_strip b)
-  · intro e
-    rw [← e]
-    have t := val_tri (strip a) (strip a) (by rw [noNaN_strip]; exact hn) (by rw [noNaN_strip]; exact hn)
-    rw [val_gt_eq_lt_swap0 _ _ (depth_strip a) (depth_strip a), val_lt_irrefl0 _ (depth_strip a)] at t
-    simpa using t
-
-/-! ### The proposed repair restores the full claim (for NaN-free values) -/
-
-theorem fixed_consistent (a b : JVal) (ha : noNaN a = true) (hb : noNaN b = true) :
-    (obsValFixed a b).consistent = true :=
-  val_consistent_partial _ _ (by rw [noNaN_strip]; exact ha) (by rw [noNaN_strip]; exact hb)
-
-theorem fixed_dual (a b : JVal) : (obsValFixed a b).dual (obsValFixed b a) = true :=
-  val_dual_partial _ _ (by rw [depth_strip, depth_strip])
-
-theorem fixed_trans (a b c : JVal) :
-    Obs.trans (obsValFixed a b) (obsValFixed b c) (obsValFixed a c) = true :=
-  val_trans0 _ _ _ (depth_strip a) (depth_strip b) (depth_strip c)
-
-theorem fixed_agrees_on_equal_nesting (a b : JVal) (h : depth a = depth b) :
-    obsValFixed a b = obsVal a b := (obsVal_strip a b h).symm
+  rw [val_lt_base, val_lt_base, val_lt_base]; exact base_lt_trans _ _ _
 
 theorem val_lt_irrefl (a : JVal) : Val.lt a a = false := by
-  rw [val_lt_strip a a (Nat.le_refl _)]; exact val_lt_irrefl0 _ (depth_strip a)
+  rw [val_lt_base]; exact base_lt_irrefl _
+
+/-- All transitivity instances the oracle checks (`<`, `==`, mixed, `<=`), for every triple. -/
+theorem val_trans (a b c : JVal) : Obs.trans (obsVal a b) (obsVal b c) (obsVal a c) = true := by
+  rw [obsVal_base a b, obsVal_base b c, obsVal_base a c]
+  exact base_trans _ _ _
+
+/-- Full claim for values: every pair is consistent (exactly one of `<`, `==`, `>`; unions). -/
+def ValueTrichotomy : Prop := ∀ a b : JVal, (obsVal a b).consistent = true
+
+/-- False for a NaN real: none of `<`, `==`, `>` holds (IEEE comparisons used directly). -/
+theorem value_nan_not_consistent : (obsVal (.real none) (.real none)).consistent = false := by decide
+
+theorem value_trichotomy_false : ¬ ValueTrichotomy := by
+  intro h
+  have := h (.real none) (.real none)
+  rw [value_nan_not_consistent] at this; cases this
+
+/-- Exactly one of `<`, `==`, `>` and the unions, for every NaN-free pair. -/
+theorem val_consistent_partial (a b : JVal) (ha : noNaN a = true) (hb : noNaN b = true) :
+    (obsVal a b).consistent = true := by
+  have t := base_tri (strip a) (strip b) (depth_strip a) (depth_strip b)
+    (by rw [noNaN_strip]; exact ha) (by rw [noNaN_strip]; exact hb)
+  rw [obsVal_base]
+  simp only [Obs.consistent, base_le_eq, base_ge_eq, Bool.and_eq_true, beq_self_eq_true, and_true]
+  exact t
+
+/-- `==` means the pointed-to values agree in everything the comparisons read (kind, container
+    size, string, number); conversely for NaN-free values. -/
+theorem val_eq_imp (a b : JVal) (h : Val.eq a b = true) : strip a = strip b := by
+  rw [val_eq_base] at h; exact base_eq_true_imp_eq _ _ h
+
+theorem val_eq_iff_partial (a b : JVal) (hn : noNaN a = true) :
+    Val.eq a b = true ↔ strip a = strip b := by
+  constructor
+  · exact val_eq_imp a b
+  · intro e
+    have t := val_consistent_partial a a hn hn
+    have hl : Val.lt a a = false := val_lt_irrefl a
+    have hg : Val.gt a a = false := by rw [val_gt_eq_lt_swap]; exact hl
+    have hself : Val.eq a a = true := by
+      simp only [Obs.consistent, obsVal, hl, hg] at t
+      revert t; cases Val.eq a a <;> simp
+    rw [val_eq_base] at hself ⊢
+    rw [← e]; exact hself
 
 /-- Numbers of one kind compare by magnitude, containers by size, kinds by `ValueType` rank. -/
 theorem val_lt_same_kind :
@@ -183,11 +163,18 @@ theorem val_lt_same_kind :
     (∀ a b : Nat, Val.lt (.obj a) (.obj b) = decide (a < b)) ∧
     (∀ a b : Nat, Val.lt (.arr a) (.arr b) = decide (a < b)) ∧
     (∀ a b : List Nat, Val.lt (.str a) (.str b) = Str.lt a b) := by
-  simp [Val.lt, realLt]
+  simp [val_lt_base, strip, Base.lt, realLt]
 
-theorem val_lt_cross_kind (a b : JVal) (ha : depth a = 0) (hb : depth b = 0) (h : rank a ≠ rank b) :
-    Val.lt a b = decide (rank a < rank b) := by
-  cases a <;> cases b <;> simp_all [depth, Val.lt, rank]
+theorem val_lt_cross_kind (a b : JVal) (h : rank (strip a) ≠ rank (strip b)) :
+    Val.lt a b = decide (rank (strip a) < rank (strip b)) := by
+  rw [val_lt_base]
+  have da := depth_strip a
+  have db := depth_strip b
+  revert h da db
+  generalize strip a = x
+  generalize strip b = y
+  intro h da db
+  cases x <;> cases y <;> simp_all [depth, Base.lt, rank]
 
 /-! ### T1: the kind ranks are the numeric values of `enum ValueType` in the current headers -/
 open Qentem.Generated.Order in
@@ -304,77 +291,77 @@ theorem object_sort_lookup (ascend : Bool) (slots : Array Slot3)
     · intro k
       exact (perm_lookup (liveAssoc_perm h2.symm) hnd k).symm
 
-theorem val_lt_strict (d : Nat) : StrictOn (fun v : JVal => depth v = d) Val.lt where
-  asymm := by
-    intro x y hx hy h
-    cases h' : Val.lt y x with
-    | false => rfl
-    | true =>
-      have := val_lt_trans_partial x y x (by omega) (by omega) h h'
-      rw [val_lt_irrefl] at this; cases this
-  trans := fun x y z hx hy hz => val_lt_trans_partial x y z (by omega) (by omega)
+theorem val_lt_strict : StrictOn (fun _ : JVal => True) Val.lt :=
+  StrictOn.of_irrefl_trans (fun x _ => val_lt_irrefl x) (fun x y z _ _ _ => val_lt_trans x y z)
 
-theorem val_gt_strict (d : Nat) : StrictOn (fun v : JVal => depth v = d) Val.gt where
+theorem val_gt_strict : StrictOn (fun _ : JVal => True) Val.gt where
   asymm := by
-    intro x y hx hy h
-    rw [val_gt_eq_lt_swap x y (by omega)] at h
-    rw [val_gt_eq_lt_swap y x (by omega)]
-    exact (val_lt_strict d).asymm y x hy hx h
+    intro x y _ _ h
+    rw [val_gt_eq_lt_swap] at h ⊢
+    exact val_lt_strict.asymm y x trivial trivial h
   trans := by
-    intro x y z hx hy hz h1 h2
-    rw [val_gt_eq_lt_swap x y (by omega)] at h1
-    rw [val_gt_eq_lt_swap y z (by omega)] at h2
-    rw [val_gt_eq_lt_swap x z (by omega)]
-    exact (val_lt_strict d).trans z y x hz hy hx h2 h1
+    intro x y z _ _ _ h1 h2
+    rw [val_gt_eq_lt_swap] at h1 h2 ⊢
+    exact val_lt_trans z y x h2 h1
 
-/-- Full claim for `Value::Sort` on arrays: for every array the result is a permutation ordered
-    by `<=` (ascending). False on the current code when pointer nestings differ or a NaN is present. -/
-def ValueSortOrdered : Prop :=
-  ∀ arr : Array JVal, ∃ out, arraySort Val.lt Val.gt true arr = some out ∧
-    out.toList.Perm arr.toList ∧ out.toList.Pairwise (fun x y => Val.le x y = true)
-
-theorem value_sort_ordered_false : ¬ ValueSortOrdered := by
-  intro h
-  obtain ⟨out, h1, _, h3⟩ := h #[.obj 0, .ptr (.str [115])]
-  have : out = #[.obj 0, .ptr (.str [115])] := by
-    have e : arraySort Val.lt Val.gt true #[JVal.obj 0, JVal.ptr (JVal.str [115])] =
-        some #[.obj 0, .ptr (.str [115])] := by decide
-    rw [e] at h1; exact (Option.some.inj h1).symm
-  subst this
-  revert h3; decide
-
-/-- `Array<Value>::Sort(ascend)` on values of one pointer nesting (e.g. none): an ordered permutation. -/
-theorem value_sort_partial (d : Nat) (arr : Array JVal) (hd : ∀ x, x ∈ arr → depth x = d) (ascend : Bool) :
+/-- `Array<Value>::Sort(ascend)` / `Value::Sort` on an array — for **every** array of values
+    (pointers, NaN included): a permutation in which no later element is `<` (`>` when
+    descending) an earlier one. -/
+theorem value_sort (arr : Array JVal) (ascend : Bool) :
     ∃ out, arraySort Val.lt Val.gt ascend arr = some out ∧ out.toList.Perm arr.toList ∧
       out.toList.Pairwise (fun x y => (if ascend then Val.lt y x else Val.gt y x) = false) := by
   cases ascend with
   | true =>
-    obtain ⟨out, h1, h2, h3⟩ := sortSeg_full Val.lt _ (val_lt_strict d) arr hd
+    obtain ⟨out, h1, h2, h3⟩ := sortSeg_full Val.lt _ val_lt_strict arr (fun _ _ => trivial)
     exact ⟨out, by simpa [arraySort] using h1, h2, by simpa using h3⟩
   | false =>
-    obtain ⟨out, h1, h2, h3⟩ := sortSeg_full Val.gt _ (val_gt_strict d) arr hd
+    obtain ⟨out, h1, h2, h3⟩ := sortSeg_full Val.gt _ val_gt_strict arr (fun _ _ => trivial)
     exact ⟨out, by simpa [arraySort] using h1, h2, by simpa using h3⟩
 
-/-- … and without NaN the ascending result is a `<=` chain (every earlier element `<=` every later one). -/
-theorem value_sort_le_chain_partial (d : Nat) (arr : Array JVal)
-    (hd : ∀ x, x ∈ arr → depth x = d) (hn : ∀ x, x ∈ arr → noNaN x = true) :
-    ∃ out, arraySort Val.lt Val.gt true arr = some out ∧ out.toList.Perm arr.toList ∧
-      out.toList.Pairwise (fun x y => Val.le x y = true) := by
-  obtain ⟨out, h1, h2, h3⟩ := value_sort_partial d arr hd true
+/-- Full claim in its `<=`-chain form: every earlier element `<=` every later one. -/
+def ValueSortChain : Prop :=
+  ∀ arr : Array JVal, ∃ out, arraySort Val.lt Val.gt true arr = some out ∧
+    out.toList.Perm arr.toList ∧ out.toList.Pairwise (fun x y => Val.le x y = true)
+
+/-- False with a NaN in the array (`NaN <= x` is false for every x). -/
+theorem value_sort_chain_false : ¬ ValueSortChain := by
+  intro h
+  obtain ⟨out, h1, _, h3⟩ := h #[.real none, .real (some 0)]
+  have : out = #[.real none, .real (some 0)] := by
+    have e : arraySort Val.lt Val.gt true #[JVal.real none, JVal.real (some 0)] =
+        some #[.real none, .real (some 0)] := by decide
+    rw [e] at h1; exact (Option.some.inj h1).symm
+  subst this
+  revert h3; decide
+
+/-- Without NaN the result is a `<=` chain (`>=` when descending). -/
+theorem value_sort_chain_partial (arr : Array JVal) (hn : ∀ x, x ∈ arr → noNaN x = true) (ascend : Bool) :
+    ∃ out, arraySort Val.lt Val.gt ascend arr = some out ∧ out.toList.Perm arr.toList ∧
+      out.toList.Pairwise (fun x y => (if ascend then Val.le x y else Val.ge x y) = true) := by
+  obtain ⟨out, h1, h2, h3⟩ := value_sort arr ascend
   refine ⟨out, h1, h2, ?_⟩
-  have hmem : ∀ x, x ∈ out.toList → depth x = d ∧ noNaN x = true := by
+  have hmem : ∀ x, x ∈ out.toList → noNaN x = true := by
     intro x hx
     have : x ∈ arr := by
       have := h2.mem_iff.mp hx
       simpa using this
-    exact ⟨hd x this, hn x this⟩
+    exact hn x this
   refine (List.Pairwise.and_mem.mp h3).imp ?_
   intro x y ⟨hx, hy, h⟩
-  simp only [if_true] at h
-  have t := val_tri x y (hmem x hx).2 (hmem y hy).2
-  rw [val_gt_eq_lt_swap x y (by rw [(hmem x hx).1, (hmem y hy).1]), h] at t
-  rw [val_le_eq]
-  revert t; cases Val.lt x y <;> cases Val.eq x y <;> simp
+  have t := val_consistent_partial x y (hmem x hx) (hmem y hy)
+  simp only [Obs.consistent, obsVal, val_le_iff, val_ge_iff, Bool.and_eq_true, beq_self_eq_true, and_true] at t
+  cases ascend with
+  | true =>
+    simp only [if_true] at h ⊢
+    rw [val_gt_eq_lt_swap x y, h] at t
+    rw [val_le_iff]
+    revert t; cases Val.lt x y <;> cases Val.eq x y <;> simp
+  | false =>
+    simp only [Bool.false_eq_true, if_false] at h ⊢
+    rw [val_gt_eq_lt_swap y x] at h
+    rw [h] at t
+    rw [val_ge_iff]
+    revert t; cases Val.gt x y <;> cases Val.eq x y <;> simp
 
 /-! ### The executable predicates the S3 oracle evaluates on C++ results are the stated notions -/
 
@@ -391,9 +378,10 @@ theorem oracle_chain_sound {α : Type} (le : α → α → Bool) (l : List α) :
 
 /-! Non-vacuity of the hypotheses, on concrete non-trivial instances. -/
 example : noNaN (.ptr (.real (some 3))) = true ∧ noNaN (.str [1]) = true := by decide
-example : depth (.ptr (.str [97])) = depth (.ptr (.obj 2)) := by decide
-example : ∀ x, x ∈ #[JVal.str [98], .nat 3, .null, .str [97]] → depth x = 0 := by
-  intro x hx; simp at hx; rcases hx with h | h | h | h <;> subst h <;> rfl
+example : obsVal (.ptr (.str [115])) (.obj 0) = obsVal (.str [115]) (.obj 0) ∧
+    Val.gt (.obj 0) (.ptr (.str [115])) = false ∧ Val.lt (.obj 0) (.ptr (.str [115])) = true := by decide
+example : ∀ x, x ∈ #[JVal.str [98], .ptr (.nat 3), .null] → noNaN x = true := by
+  intro x hx; simp at hx; rcases hx with h | h | h <;> subst h <;> rfl
 example : arraySort Val.lt Val.gt true #[JVal.str [98], .nat 3, .null, .str [97], .str [98, 1]] =
     some #[.str [97], .str [98], .str [98, 1], .nat 3, .null] := by decide
 example : arraySort Str.lt Str.gt false #[[98], [], [97, 98], [97]] = some #[[98], [97, 98], [97], []] := by decide
